@@ -632,5 +632,26 @@ def sliceCert (G : Grammar) : Bool :=
   nodupB (G.rules.map (·.1)) &&
     G.rules.all (fun p => wf p.2 && (msgsOf p.2).all (fun m => (G.rule m.type).isNone))
 
+/-! ### certificate for the exploring walk (`C19_code_forecast_initial`) -/
+
+mutual
+/-- what the exploring visitor relies on: the children of a concatenation can all be completed (each derives
+    some interaction), repetition bounds are consistent and `max > 0` (a constructor invariant of `Repetition`) -/
+def walkOk (G : Grammar) : Node → Bool
+  | .term _ => true
+  | .nt _ _ _ => true
+  | .alt _ ns => walkOkAlt G ns
+  | .cat _ ns => walkOkCat G ns
+  | .rep _ _ n min max => boundsOk min max && (max != some 0) && walkOk G n
+def walkOkAlt (G : Grammar) : List Node → Bool
+  | [] => true
+  | n :: ns => walkOk G n && walkOkAlt G ns
+def walkOkCat (G : Grammar) : List Node → Bool
+  | [] => true
+  | n :: ns => walkOk G n && nonEmpty G n && walkOkCat G ns
+end
+
+def walkCert (G : Grammar) : Bool := G.rules.all (fun p => walkOk G p.2)
+
 end Fc
 end FV
